@@ -1,7 +1,7 @@
 (* C16, tie by TRANSLATION - the parts of the contract-level response table (`Interfaces::emit_response_schemas_calls` of
    sylvia-derive/src/types/interfaces.rs, translated on every run: GenImpMacro.bridge_fns, Facts/BridgeRefine.v). *)
 From Coq Require Import String List Bool.
-Require Import SV.Model.Imp SV.Model.GenImpMacro SV.Facts.ImpFacts SV.Facts.MacroRefine SV.Facts.BridgeRefine.
+Require Import SV.Model.Imp SV.Model.GenImpBridge SV.Facts.ImpFacts SV.Facts.MacroRefine SV.Facts.BridgeRefine.
 Import ListNotations.
 Open Scope string_scope.
 Open Scope list_scope.
@@ -9,11 +9,25 @@ Open Scope list_scope.
 (* For ANY list of attached interfaces: the contract-level table is assembled from one table per interface, in order, and
    the table of interface i is that of ITS query message type -
    `<Contract as module_i::sv::InterfaceMessagesApi>::<accessor of the kind>::response_schemas_impl()`. *)
-Theorem c16_translated_response_schemas_calls : forall kv contract (l : list (value * value)),
+Theorem c16_translated_response_schemas_calls : forall kv contract (l : list iface),
   calls BR 2 "Interfaces::emit_response_schemas_calls" [ifaces_v l; kv; contract] (CVal (VArr (map (schemas_call_spec kv contract) l))).
 Proof. exact translated_response_schemas_calls. Qed.
+
+(* the contract-level table (query kind) is fed by the table of every interface, in order, followed by the contract's own *)
+Theorem c16_translated_contract_level_table_parts : forall params w contract err custom (l : list iface),
+  exists r rs t own,
+    calls BR 3 "GlueMessage::emit" [glue_self params w contract "Query" err custom l] (CVal r) /\
+    lookup "response_schemas" (holes_of r) = Some rs /\
+    lookup "response_schemas_calls" (holes_of rs) = Some (VArr (map (schemas_call_spec (kind_v "Query") contract) l ++ [quote_v t own])).
+Proof.
+  intros params w contract err custom l.
+  destruct (translated_glue_message params w contract "Query" err custom l) as (r & H1 & _ & _ & _ & _ & _ & _ & _ & H9).
+  - simpl. tauto.
+  - cbn in H9. destruct H9 as (rs & t & own & Hrs & Hc). exists r, rs, t, own. split; [exact H1|]. split; [exact Hrs | exact Hc].
+Qed.
 
 Example c16_translated_example : t_schemas_call <> "".
 Proof. vm_compute. discriminate. Qed.
 
 Print Assumptions c16_translated_response_schemas_calls.
+Print Assumptions c16_translated_contract_level_table_parts.
